@@ -306,7 +306,7 @@ def oracles(ctx, deep):
             if e["coil_invariant"] and e["kind"] in ("image", "image_cf", "modulus"):
                 perm = list(range(c))
                 rng.shuffle(perm)
-                pb = {"kspace": single["kspace"][:, perm].contiguous(), "sens": single["sens"][:, perm].contiguous(), "mask": single["mask"]}
+                pb = dict(single, kspace=single["kspace"][:, perm].contiguous(), sens=single["sens"][:, perm].contiguous())
                 try:
                     with torch.no_grad():
                         op = e["call"](model, pb)
